@@ -406,6 +406,13 @@ func checkC01(ck *Check) {
 
 	// R8: the cluster view is the listers' view: cached objects and lists are never written
 	ck.nodeListImmutability("C01.R8")
+	// R9: the group's pod / node listers hand out exactly what the group filter accepts of the
+	// backing list (a pod dropped by the lister makes its node look empty to the reapers)
+	for _, name := range []string{"FilteredPodsLister", "FilteredNodesLister"} {
+		if fn := a.method(a.named(pkgK8s, name), "List"); fn != nil {
+			ck.filteredLister("C01.R9", fn)
+		}
+	}
 }
 
 // classification checks the classifier's appends. want maps result index → role:
